@@ -208,9 +208,12 @@ func c01Check(c *C01Case) (ds []ev.Discrepancy, classes []string) {
 	}
 	bufs := map[int]*refclient.Buffer{}
 	everOpened := map[int]bool{}
-	version := 1
+	// a client numbers the versions of a document from 1 with every didOpen: the numbers of a second
+	// session are lower than the last ones of the first
+	versions := map[int]int{}
 	for si, op := range c.Ops {
 		uri := c01URIs[op.Doc]
+		version := versions[op.Doc]
 		late := op.Probe != nil && op.Probe.Late && op.Op == "change" && len(op.Changes) >= 2
 		if op.Probe != nil && !late {
 			gate.hold()
@@ -220,6 +223,7 @@ func c01Check(c *C01Case) (ds []ev.Discrepancy, classes []string) {
 			switch op.Op {
 			case "open":
 				nerr = h.Open(uri, op.Text)
+				version = 1
 				bufs[op.Doc] = refclient.New(op.Text)
 				if everOpened[op.Doc] {
 					cls["reopen"] = true
@@ -267,6 +271,7 @@ func c01Check(c *C01Case) (ds []ev.Discrepancy, classes []string) {
 				delete(bufs, op.Doc)
 			}
 		})
+		versions[op.Doc] = version
 		if perr != nil || nerr != nil {
 			gate.release()
 			_ = h.Quiesce()
